@@ -153,6 +153,34 @@ pub fn run_c16(cx: &mut Cx) {
             q.proof_json = v2.to_string();
             deliver(cx, verifier, q, format!("forged_transplant:{tname}"), false);
         }
+        // Mallory: RE-TARGETING.  From an honest proof for E = g^x h^r, without any secret, a proof for
+        // E * g^delta (a commitment to x + delta): E and E' are shifted, the second halves of the
+        // decomposition absorb the shift (E_a_2 * g^(2^T delta), E_b_2 * g^(-2^T delta)) and the two
+        // responses D_1 move by +-c * 2^T * delta.  Every equation of the verifier still holds; only
+        // the interval it allows for D_1 stands in the way.  delta is chosen so that x + delta lies
+        // OUTSIDE [a, b] (just outside, or by about 2^20).
+        {
+            let m128 = Integer::from(1) << 128u32;
+            let mut deltas: Vec<(&str, Integer)> = vec![("to:a-1", Integer::from(&a - 1u32) - &x), ("to:b+1", Integer::from(&b + 1u32) - &x), ("to:a-2^20", Integer::from(&a - (1u32 << 20)) - &x), ("to:b+2^20", Integer::from(&b + (1u32 << 20)) - &x)];
+            deltas.retain(|(_, d)| *d != 0);
+            for (dname, delta) in deltas {
+                let sh = Integer::from(&two_t * &delta);
+                let mut v2 = v.clone();
+                let get = |v: &Value, p: &str| leaves(v).into_iter().find(|(q, _)| q == p).map(|(_, x)| x);
+                let (Some(e0), Some(ep), Some(ea2), Some(eb2), Some(ca), Some(cb), Some(da), Some(db)) = (get(&v, "E"), get(&v, "E_prime"), get(&v, "proof_of_tolerance.E_a_2"), get(&v, "proof_of_tolerance.E_b_2"), get(&v, "proof_of_tolerance.proof_large_i_a.C"), get(&v, "proof_of_tolerance.proof_large_i_b.C"), get(&v, "proof_of_tolerance.proof_large_i_a.D_1"), get(&v, "proof_of_tolerance.proof_large_i_b.D_1")) else { break };
+                let e_new = Integer::from(&e0 * &gpow(&delta)) % &n;
+                set_leaf(&mut v2, "E", &e_new);
+                set_leaf(&mut v2, "E_prime", &(Integer::from(&ep * &gpow(&sh)) % &n));
+                set_leaf(&mut v2, "proof_of_tolerance.E_a_2", &(Integer::from(&ea2 * &gpow(&sh)) % &n));
+                set_leaf(&mut v2, "proof_of_tolerance.E_b_2", &(Integer::from(&eb2 * &gpow(&Integer::from(-&sh))) % &n));
+                set_leaf(&mut v2, "proof_of_tolerance.proof_large_i_a.D_1", &Integer::from(&da + Integer::from(&ca % &m128) * &sh));
+                set_leaf(&mut v2, "proof_of_tolerance.proof_large_i_b.D_1", &Integer::from(&db - Integer::from(&cb % &m128) * &sh));
+                let mut q = f.clone();
+                q.e_expected = e_new;
+                q.proof_json = v2.to_string();
+                deliver(cx, verifier, q, format!("forged_retarget:{dname}"), false);
+            }
+        }
     });
     // a hostile or careless caller first: intervals the prover cannot serve (upper bound <= 0,
     // bounds reversed) -- whatever those calls do (they may panic), an honest proof made by the same
